@@ -1,6 +1,7 @@
 """Configuration of ./check C14 (see pylib/props.py)."""
 CFG = dict(
-        coq=["props/C14.vo"],
+        coq=["props/C14.vo", "props/Compose3.vo"],
+        compose=['Compose_refsql_txn', 'Compose_refsql_crash', 'Compose_refsql_setwithlog', 'Compose_refsql_txlog'],
         tie=["gen/Tie_C14.vo"],
         model_vo=["model/Txn.vo"],
         extract="Ex_C14",
